@@ -123,7 +123,7 @@ def sc_start_lost():
             "0 cycle", "0 cycle", "0 root z 7a 2 0 1", "0 child1 y 79 z", "0 scope y", "0 localEnter 6c", "0 close", "0 close", "0 drop y", "0 drop z", "0 cycle", "0 stats"]
 
 
-def sc_big_trace(cancelable, n=5000):
+def sc_big_trace(cancelable, n=9000):
     """one thread finishes n children of the root and exits / hands back; the root is then finished on another
     thread; one cycle: every child must be in that cycle's report (no per-cycle cap on a queue's backlog)"""
     p = ["0 spawn", "1 spawn", "0 setReporter %d" % cancelable, "0 root r 72 1 0 1"]
